@@ -314,7 +314,7 @@ def hash_name(s):
 
 
 def run(ctx):
-    for i in ctx.indices(600 if ctx.tier == 'quick' else 20000, 'random'):
+    for i in ctx.indices(3000 if ctx.tier == 'quick' else 20000, 'random'):
         one(ctx, i)
 
 
